@@ -22,7 +22,8 @@ def continuation(rng, net, mtu, n):
     r = rng.random()
     if r < 0.45:
         # the first session frame after the Reset is a command, not a Discover: Emit / Query / QueryLargeTlv first
-        first = rng.choice([G.f_emit(rng, net, m, n=rng.randint(1, 3))[0], G.f_query(rng, net, m), G.f_qlt(rng, net, m, typ=0x0E, off=0),
+        first = rng.choice([G.f_emit(rng, net, m, n=rng.randint(1, 3))[0], G.f_emit(rng, net, m, n=rng.randint(1, 2), seq=0)[0],
+                            G.f_query(rng, net, m), G.f_query(rng, net, m, seq=0), G.f_qlt(rng, net, m, typ=0x0E, off=0),
                             G.f_qlt(rng, net, m, typ=0x11, off=0, tos=1), G.f_probe(rng, net, to_me=True),
                             G.f_emit(rng, net, m, n=1, bridged=True)[0]])
         out = [first] + out
@@ -70,7 +71,9 @@ def make_scenarios(ctx, count):
                 glob = dict(glob, icon_seed=g2["icon_seed"], icon_size=g2["icon_size"], fname=g2["fname"], _icon_cache=None)
                 s.add("GSET icon=%s fname=%s" % (G.global_kw(glob)["icon"], glob["fname"].hex() or "-"))
             s.frame(0, fr)
-        s.frame(0, W.reset(rng.choice(net.mappers), tos=0))
+        rs = rng.choice([0, 0, 1, 0x4242, 0xFFFF, rng.getrandbits(16)])
+        s.frame(0, W.reset(rng.choice(net.mappers), tos=0, seq=rs) if rng.random() < 0.7 else
+                W.reset(rng.choice(net.mappers), tos=0, seq=rs, real_dst=net.own, eth_dst=net.own))
         # the same full-buffer frame of a foreign service on both: receive buffers are now byte-identical
         filler = (W.base(net.own, net.strangers[0], 5, 0x44, net.own, net.strangers[0], 9) + W.fill_stream(mtu, 99))[:mtu]
         s.add("MARK cP")
